@@ -219,7 +219,7 @@ def tag_of(desc):
     return m.group(1) if m else None
 
 
-def playback(unit, h, prop, failed, workdir):
+def playback(unit, h, prop, failed, workdir, gen_timeout=2400, run_timeout=3600):
     """Obtain concrete inputs for a violated harness and replay them on the real code.
     Returns (replay_path, reproduced: bool)."""
     os.makedirs(REPLAY_DIR, exist_ok=True)
@@ -231,14 +231,18 @@ def playback(unit, h, prop, failed, workdir):
                           "--output-format=terse"])
     test_src, out = "", ""
     try:
+        if gen_timeout <= 0:
+            raise subprocess.TimeoutExpired(cmd, 0)
         p = subprocess.run(cmd, cwd=crate_dir, env=env, stdout=subprocess.PIPE,
-                           stderr=subprocess.STDOUT, text=True, timeout=min(h.get("timeout", 900) + 600, 2400))
+                           stderr=subprocess.STDOUT, text=True, timeout=gen_timeout)
         out = p.stdout
         m = re.search(r"```\n(.*?)```", out, re.S)
         if m:
             test_src = m.group(1)
     except subprocess.TimeoutExpired:
-        out = "[vcheck] playback generation timed out"
+        out = ("[vcheck] concrete-playback generation skipped or timed out (time budget of the quick tier); "
+               "run the thorough tier for a concrete input")
+        subprocess.run(["pkill", "-f", "concrete-playback=print"])
     lines = [f"// REPLAY property={prop} harness={unit['mod_path']}::{h['name']}",
              f"// module under contract: {unit.get('module', '')}",
              "// failed obligations (verifier: Kani/CBMC):"]
@@ -253,16 +257,19 @@ def playback(unit, h, prop, failed, workdir):
         mt = re.search(r"fn\s+(kani_concrete_playback_\w+)", test_src)
         tname = mt.group(1) if mt else None
         mod_file = unit.get("module")
-        if tname and mod_file and os.path.exists(mod_file):
+        if tname and mod_file and os.path.exists(mod_file) and run_timeout <= 0:
+            lines.append("// replay on the real code: NOT executed in this run (time budget of the quick tier); "
+                         "run the thorough tier, or append the test to the harness module and run `cargo kani playback`")
+        elif tname and mod_file and os.path.exists(mod_file):
             bak = mod_file + ".vcheck-bak"
             shutil.copyfile(mod_file, bak)
             try:
                 with open(mod_file, "a") as f:
                     f.write("\n" + test_src + "\n")
-                pc = ["cargo", "kani", "playback", "-Z", "concrete-playback", "--target-dir",
-                      os.path.join(CACHE, "kani-playback"), "--", tname]
-                pp = subprocess.run(pc, cwd=crate_dir, env=env, stdout=subprocess.PIPE,
-                                    stderr=subprocess.STDOUT, text=True, timeout=3600)
+                pc = ["cargo", "kani", "playback", "-Z", "concrete-playback", "--", tname]
+                penv = dict(env, CARGO_TARGET_DIR=os.path.join(CACHE, "kani-playback"))
+                pp = subprocess.run(pc, cwd=crate_dir, env=penv, stdout=subprocess.PIPE,
+                                    stderr=subprocess.STDOUT, text=True, timeout=run_timeout)
                 pout = pp.stdout
                 reproduced = ("test result: FAILED" in pout) or ("panicked at" in pout and pp.returncode != 0)
                 lines.append(f"// replay on the real code: {'REPRODUCED (test panics)' if reproduced else 'did not reproduce'}")
@@ -472,7 +479,15 @@ def main():
                     f.write(f"// REPLAY property={prop} harness={h['name']} (replay skipped)\n" +
                             "\n".join("// " + (c.get("description") or "") for c in failed) + "\n")
             else:
-                replay, rep = playback(unit, h, prop, failed, workdir)
+                # quick tier: the whole check has to stay inside ~15 min, so concrete-playback
+                # generation gets what is left and the replay run only happens if enough remains
+                if args.tier == "thorough":
+                    gen_t, run_t = 2400, 3600
+                else:
+                    left = 840 - (time.time() - t_start)
+                    gen_t = int(max(0, min(300, left - 60)))
+                    run_t = 400 if left - gen_t > 520 else 0
+                replay, rep = playback(unit, h, prop, failed, workdir, gen_t, run_t)
             suffix = "" if rep else " no-failing-input-found"
         else:
             suffix = " no-failing-input-found"
